@@ -68,6 +68,7 @@ impl<L: Language> Fixer<L> {
   fn do_parse(
     serialized: &SerializableFixConfig,
     env: &DeserializeEnv<L>,
+    transform: &Option<HashMap<String, Transformation>>,
   ) -> Result<Self, FixerError> {
     let SerializableFixConfig {
       template,
@@ -76,8 +77,10 @@ impl<L: Language> Fixer<L> {
     } = serialized;
     let expand_start = Expansion::parse(expand_start, env)?;
     let expand_end = Expansion::parse(expand_end, env)?;
+    // the template of the object form sees the same transformed variables as the string form
+    let template = Self::with_transform(template, env, transform)?.template;
     Ok(Self {
-      template: TemplateFix::try_new(template, &env.lang)?,
+      template,
       expand_start,
       expand_end,
     })
@@ -90,7 +93,7 @@ impl<L: Language> Fixer<L> {
   ) -> Result<Self, FixerError> {
     match fixer {
       SerializableFixer::Str(fix) => Self::with_transform(fix, env, transform),
-      SerializableFixer::Config(cfg) => Self::do_parse(cfg, env),
+      SerializableFixer::Config(cfg) => Self::do_parse(cfg, env, transform),
     }
   }
 
